@@ -11,8 +11,11 @@ From Mdns Require Import Res Bytes Rec ParamsLife Life LifeSpec.
 Import ListNotations.
 Open Scope N_scope.
 
+(* sv_sub: the `_x._sub._type PTR instance` additional of a service registered with a subtype *)
 Record svc : Type := mkSvc {
-  sv_ptr : orec; sv_srv : orec; sv_txt : orec; sv_addrs : list orec }.
+  sv_ptr : orec; sv_sub : option orec; sv_srv : orec; sv_txt : orec; sv_addrs : list orec }.
+
+Definition sub_list (s : svc) : list orec := match sv_sub s with Some x => [x] | None => [] end.
 
 Definition rename (a : orec) (name : bytes) : orec :=
   let i := o_id a in
@@ -24,10 +27,16 @@ Definition no_addrs (s : svc) : bool := match sv_addrs s with [] => true | _ => 
    goes through add_answer_with_additionals (PTR) or add_answer, and has_addrs. *)
 Record cand : Type := mkCand { cd_answer : orec; cd_adds : list orec; cd_is_ptr : bool; cd_has_addrs : bool }.
 
+(* matches_type_or_subtype: the question names the type or the subtype; the answer is the type PTR
+   either way, with the subtype PTR, SRV, TXT and the addresses as additionals *)
+Definition names_type_or_sub (qname : bytes) (s : svc) : bool :=
+  beq qname (i_name (o_id (sv_ptr s)))
+  || match sv_sub s with Some x => beq qname (i_name (o_id x)) | None => false end.
+
 Definition ptr_cands (qname : bytes) (svcs : list svc) : list cand :=
   flat_map (fun s =>
-    if beq qname (i_name (o_id (sv_ptr s)))
-    then [mkCand (sv_ptr s) (sv_srv s :: sv_txt s :: sv_addrs s) true (negb (no_addrs s))] else []) svcs.
+    if names_type_or_sub qname s
+    then [mkCand (sv_ptr s) (sub_list s ++ sv_srv s :: sv_txt s :: sv_addrs s) true (negb (no_addrs s))] else []) svcs.
 
 Definition host_name (s : svc) : bytes := match i_data (o_id (sv_srv s)) with RSrv _ _ _ h => h | _ => [] end.
 
@@ -61,45 +70,36 @@ Definition question_cands (svcs : list svc) (q : bytes * N) : list cand :=
   if qtype =? TY_PTR then ptr_cands qname svcs
   else addr_cands qname qtype svcs ++ inst_cands qname qtype svcs.
 
-(* One definition for the code and for the property text, differing in two switches:
-   code_match = true : "same record" is DnsRecordExt::matches (includes the cache-flush bit);
-               false: the property's same_record (owner, type, class, RDATA);
-   keep_adds  = true : additionals of a non-PTR answer are added unconditionally
-                       (add_answer_of_service: the addresses of an SRV question);
-               false: a suppressed answer takes the additionals it would have brought with it. *)
-Definition suppressed_gen (code_match : bool) (a : orec) (kas : list (ident * N)) : bool :=
-  if code_match then suppressed_by (o_id a) (o_ttl a) kas
-  else existsb (fun k => suppress_spec (o_id a) (o_ttl a) (fst k) (snd k)) kas.
-
-Definition step_gen (code_match keep_adds : bool) (kas : list (ident * N)) (out : outmsg) (c : cand) : outmsg :=
-  if negb (cd_has_addrs c) then out
-  else if suppressed_gen code_match (cd_answer c) kas
-  then mkOut (out_answers out)
-             (if keep_adds && negb (cd_is_ptr c) then out_additionals out ++ cd_adds c else out_additionals out)
-             (out_suppressed out + 1)
-  else mkOut (out_answers out ++ [cd_answer c]) (out_additionals out ++ cd_adds c) (out_suppressed out).
-
-(* the code as it is, written with the functions of Model/Life.v *)
+(* the code as it is, written with the functions of Model/Life.v: a PTR goes through
+   add_answer_with_additionals; a direct answer through add_answer, and brings its additionals
+   (the addresses of an SRV question) only if it was added *)
 Definition step_code (kas : list (ident * N)) (out : outmsg) (c : cand) : outmsg :=
   if cd_is_ptr c then add_answer_with_additionals kas out (cd_has_addrs c) (cd_answer c) (cd_adds c)
   else
-    let (o1, _) := add_answer kas out (cd_answer c) in
-    mkOut (out_answers o1) (out_additionals o1 ++ cd_adds c) (out_suppressed o1).
+    let (o1, added) := add_answer kas out (cd_answer c) in
+    if added then mkOut (out_answers o1) (out_additionals o1 ++ cd_adds c) (out_suppressed o1) else o1.
 
 Definition finish (out : outmsg) : option (list orec * list orec) :=
   match out_answers out with [] => None | _ => Some (out_answers out, out_additionals out) end.
-
-Definition resp_gen (code_match keep_adds : bool) (svcs : list svc) (questions : list (bytes * N))
-    (kas : list (ident * N)) : option (list orec * list orec) :=
-  finish (fold_left (step_gen code_match keep_adds kas) (flat_map (question_cands svcs) questions) (mkOut [] [] 0)).
 
 Definition resp_predict (svcs : list svc) (questions : list (bytes * N)) (kas : list (ident * N))
   : option (list orec * list orec) :=
   finish (fold_left (step_code kas) (flat_map (question_cands svcs) questions) (mkOut [] [] 0)).
 
 (* the property text: an answer whose record is listed with a TTL above half is left out
-   together with the additionals it would have brought; everything else is answered *)
-Definition resp_spec := resp_gen false false.
+   together with ALL the additionals it would have brought; everything else is answered *)
+Definition suppressed_spec (a : orec) (kas : list (ident * N)) : bool :=
+  existsb (fun k => suppress_spec (o_id a) (o_ttl a) (fst k) (snd k)) kas.
+
+Definition step_spec (kas : list (ident * N)) (out : outmsg) (c : cand) : outmsg :=
+  if negb (cd_has_addrs c) then out
+  else if suppressed_spec (cd_answer c) kas
+  then mkOut (out_answers out) (out_additionals out) (out_suppressed out + 1)
+  else mkOut (out_answers out ++ [cd_answer c]) (out_additionals out ++ cd_adds c) (out_suppressed out).
+
+Definition resp_spec (svcs : list svc) (questions : list (bytes * N)) (kas : list (ident * N))
+  : option (list orec * list orec) :=
+  finish (fold_left (step_spec kas) (flat_map (question_cands svcs) questions) (mkOut [] [] 0)).
 
 (* ---- comparison of an observed response with the expected one, as multisets ---- *)
 Definition orec_eqb (a b : orec) : bool :=
@@ -122,7 +122,3 @@ Definition chk_C10_resp (svcs : list svc) (questions : list (bytes * N)) (kas : 
     (observed : option (list orec * list orec)) : bool :=
   resp_eqb observed (resp_spec svcs questions kas).
 
-(* classification of a rejected response: which of the two known deviations explain it *)
-Definition resp_explained_by (code_match keep_adds : bool) (svcs : list svc) (questions : list (bytes * N))
-    (kas : list (ident * N)) (observed : option (list orec * list orec)) : bool :=
-  resp_eqb observed (resp_gen code_match keep_adds svcs questions kas).
